@@ -90,6 +90,142 @@ theorem ones_is2 (t : Tensor ℝ) (N O : Nat) (f : Nat → Nat → ℝ) (h : Is2
   rw [C14y.map_el _ t h.wf (by rw [h.dims]; exact valid2 hi hj)]
   simp
 
+/-- **An FC layer inside ANY walk** (either mode). Let `H2` be any heap with older-pointing back edges that contains the
+    nine-node graph of a `Forward` call at base id `k` (`FCGraph`), with `W`, `B` tracked, unspent and without a gradient,
+    the input unspent; let the tensors outside the graph have no back edge to `W`, `B` or the layer's eight internal
+    tensors (the layer's result `k + 8` may be consumed by anything: a loss, further layers). Take a successful walk from
+    ANY root (not inside the layer) that visits the layer's result and leaves the gradient `G` on it. Then `W.Gradient()` and
+    `B.Gradient()` are the rules of the two back-edge paths applied to `G`, in order. -/
+theorem fc_paths_in_walk (bm : BMode) (H2 : Heap ℝ) (root w b x k N D O : Nat) {Wf Bf : Nat → ℝ} {Xf : Nat → Nat → ℝ}
+    (hdag : HeapDag H2) (htr : H2.tracked root = true) (hok : (backprop bm H2 root).status = .ok ())
+    (g : FCGraph H2 w b x k N D O Wf Bf Xf) (hwk : w < k) (hbk : b < k) (hxk : x < k) (hwb : w ≠ b)
+    (tw : H2.tracked w = true) (tb : H2.tracked b = true)
+    (cw : H2.dirty w = false) (cb : H2.dirty b = false) (cx' : H2.dirty x = false)
+    (gw : H2.grad w = none) (gb : H2.grad b = none) (gnew : ∀ i, i ≤ 7 → H2.grad (k + i) = none)
+    (hroot1 : root ≠ w) (hroot2 : root ≠ b) (hroot3 : ∀ i, i ≤ 7 → root ≠ k + i)
+    (hsole : ∀ v, (v < k ∨ k + 8 < v) → ∀ e ∈ (H2.ctx v).edges,
+      e.target ≠ w ∧ e.target ≠ b ∧ ¬ (k ≤ e.target ∧ e.target ≤ k + 7))
+    (G : Tensor ℝ) (hy : k + 8 ∈ backwardOrder H2 root) (f8 : (backprop bm H2 root).heap.grad (k + 8) = some G) :
+    ∃ gW gB,
+      evalPath bm H2 (pathW w k) G = .ok gW ∧ (backprop bm H2 root).heap.grad w = some gW ∧
+      evalPath bm H2 (pathB b k) G = .ok gB ∧ (backprop bm H2 root).heap.grad b = some gB := by
+  have hxw : x ≠ w := by intro h; have := g.vx.dims; rw [h, g.vw.dims] at this; simp at this
+  have hxb : x ≠ b := by intro h; have := g.vx.dims; rw [h, g.vb.dims] at this; simp at this
+  -- nothing in the graph is spent; the nodes on the two paths are tracked with their edges
+  have d0 : H2.dirty k = false := ctx_clean g.c0 (by simpa using cw)
+  have d1 : H2.dirty (k + 1) = false := ctx_clean g.c1 (by simpa using cx')
+  have d2 : H2.dirty (k + 2) = false := ctx_clean g.c2 (by simpa using d0)
+  have d3 : H2.dirty (k + 3) = false := ctx_clean g.c3 (by simpa using d1)
+  have d4 : H2.dirty (k + 4) = false := ctx_clean g.c4 (by simpa using ⟨d2, d3⟩)
+  have d5 : H2.dirty (k + 5) = false := ctx_clean g.c5 (by simpa using d4)
+  have d6 : H2.dirty (k + 6) = false := ctx_clean g.c6 (by simpa using d5)
+  have d7 : H2.dirty (k + 7) = false := ctx_clean g.c7 (by simpa using cb)
+  have c67 : ∀ m ∈ [k + 6, k + 7], H2.dirty m = false := by simpa using ⟨d6, d7⟩
+  have c23 : ∀ m ∈ [k + 2, k + 3], H2.dirty m = false := by simpa using ⟨d2, d3⟩
+  obtain ⟨t0, e0⟩ := ctx_live g.c0 (by simpa using cw) ⟨w, by simp, tw⟩
+  obtain ⟨t2, e2⟩ := ctx_live g.c2 (by simpa using d0) ⟨k, by simp, t0⟩
+  obtain ⟨t4, e4⟩ := ctx_live g.c4 c23 ⟨k + 2, by simp, t2⟩
+  obtain ⟨t5, e5⟩ := ctx_live g.c5 (by simpa using d4) ⟨k + 4, by simp, t4⟩
+  obtain ⟨t6, e6⟩ := ctx_live g.c6 (by simpa using d5) ⟨k + 5, by simp, t5⟩
+  obtain ⟨t7, e7⟩ := ctx_live g.c7 (by simpa using cb) ⟨b, by simp, tb⟩
+  obtain ⟨t8, e8⟩ := ctx_live g.c8 c67 ⟨k + 6, by simp, t6⟩
+  -- who else could have an edge into a tensor of the graph, or into W / B
+  have hno : ∀ (t i0 : Nat), ((k ≤ t ∧ t ≤ k + 7) ∨ t = w ∨ t = b) →
+      (∀ i, i ≤ 8 → i ≠ i0 → ∀ e ∈ fcEdges w b x k i, e.target ≠ t) →
+      ∀ v ∈ backwardOrder H2 root, v ≠ k + i0 → ∀ e ∈ (H2.ctx v).edges, e.target ≠ t := by
+    intro t i0 ht hfin v hv hne e he
+    by_cases hvk : v < k ∨ k + 8 < v
+    · obtain ⟨s1, s2, s3⟩ := hsole v hvk e he
+      rcases ht with ht | rfl | rfl
+      · intro h; rw [h] at s3; exact s3 ht
+      · exact s1
+      · exact s2
+    · obtain ⟨i, hi, rfl⟩ : ∃ i, i ≤ 8 ∧ v = k + i := ⟨v - k, by omega, by omega⟩
+      exact hfin i hi (by intro h; apply hne; rw [h]) e (fc_edges_sub g i hi e he)
+  let Hm := markDirty H2 (backwardOrder H2 root)
+  have hv1 : ∀ n, Hm.val n = H2.val n := fun n => markDirty_val _ _ n
+  -- the path to W
+  have pW : SolePath H2 root (k + 8) (pathW w k) w := by
+    unfold pathW pathMM
+    simp only [List.cons_append, List.nil_append]
+    refine .cons (t := k + 6) (by rw [e8]; simp [List.filter_cons]) ?_ t6 (gnew 6 (by omega)) (hroot3 6 (by omega)).symm ?_
+    · apply hno (k + 6) 8 (by omega)
+      intro i hi hne e he
+      interval_cases i <;> simp [fcEdges] at he <;> (try rcases he with rfl | rfl) <;> (try subst he) <;> simp <;> omega
+    refine .cons (t := k + 5) (by rw [e6]; simp [List.filter_cons]) ?_ t5 (gnew 5 (by omega)) (hroot3 5 (by omega)).symm ?_
+    · apply hno (k + 5) 6 (by omega)
+      intro i hi hne e he
+      interval_cases i <;> simp [fcEdges] at he <;> (try rcases he with rfl | rfl) <;> (try subst he) <;> simp <;> omega
+    refine .cons (t := k + 4) (by rw [e5]; simp [List.filter_cons]) ?_ t4 (gnew 4 (by omega)) (hroot3 4 (by omega)).symm ?_
+    · apply hno (k + 4) 5 (by omega)
+      intro i hi hne e he
+      interval_cases i <;> simp [fcEdges] at he <;> (try rcases he with rfl | rfl) <;> (try subst he) <;> simp <;> omega
+    refine .cons (t := k + 2) (by rw [e4]; simp [List.filter_cons]) ?_ t2 (gnew 2 (by omega)) (hroot3 2 (by omega)).symm ?_
+    · apply hno (k + 2) 4 (by omega)
+      intro i hi hne e he
+      interval_cases i <;> simp [fcEdges] at he <;> (try rcases he with rfl | rfl) <;> (try subst he) <;> simp <;> omega
+    refine .cons (t := k) (by rw [e2]; simp [List.filter_cons]) ?_ t0 (by simpa using gnew 0 (by omega))
+      (by simpa using (hroot3 0 (by omega)).symm) ?_
+    · apply hno k 2 (by omega)
+      intro i hi hne e he
+      interval_cases i <;> simp [fcEdges] at he <;> (try rcases he with rfl | rfl) <;> (try subst he) <;> simp <;> omega
+    refine .cons (t := w) (by rw [e0]; simp [List.filter_cons]) ?_ tw gw hroot1.symm (.nil w)
+    · have := hno w 0 (Or.inr (Or.inl rfl))
+      simp only [Nat.add_zero] at this
+      apply this
+      intro i hi hne e he
+      interval_cases i <;> simp [fcEdges] at he <;> (try rcases he with rfl | rfl) <;> (try subst he) <;> simp <;> omega
+  -- the path to B
+  have pB : SolePath H2 root (k + 8) (pathB b k) b := by
+    unfold pathB
+    refine .cons (t := k + 7) (by rw [e8]; simp [List.filter_cons]) ?_ t7 (gnew 7 (by omega)) (hroot3 7 (by omega)).symm ?_
+    · apply hno (k + 7) 8 (by omega)
+      intro i hi hne e he
+      interval_cases i <;> simp [fcEdges] at he <;> (try rcases he with rfl | rfl) <;> (try subst he) <;> simp <;> omega
+    refine .cons (t := b) (by rw [e7]; simp [List.filter_cons]) ?_ tb gb hroot2.symm (.nil b)
+    · apply hno b 7 (Or.inr (Or.inr rfl))
+      intro i hi hne e he
+      interval_cases i <;> simp [fcEdges] at he <;> (try rcases he with rfl | rfl) <;> (try subst he) <;> simp <;> omega
+  obtain ⟨gW, pw1, pw2, _⟩ := grad_path bm H2 root hdag htr hok _ _ _ pW G hy f8
+  obtain ⟨gB, pb1, pb2, _⟩ := grad_path bm H2 root hdag htr hok _ _ _ pB G hy f8
+  rw [evalPath_val_congr bm Hm H2 hv1] at pw1 pb1
+  exact ⟨gW, gB, pw1, pw2, pb1, pb2⟩
+
+/-- **in `sum` mode, inside any walk**: `dW[o] = Σ_n G[n][o]·Σ_d x[n][d]`, `dB[o] = Σ_n G[n][o]` for the gradient `G`
+    the walk leaves on the layer's result -/
+theorem fc_in_walk_sum (H2 : Heap ℝ) (root w b x k N D O : Nat) {Wf Bf : Nat → ℝ} {Xf : Nat → Nat → ℝ}
+    (hdag : HeapDag H2) (htr : H2.tracked root = true) (hok : (backprop .sum H2 root).status = .ok ())
+    (g : FCGraph H2 w b x k N D O Wf Bf Xf) (hwk : w < k) (hbk : b < k) (hxk : x < k) (hwb : w ≠ b)
+    (tw : H2.tracked w = true) (tb : H2.tracked b = true)
+    (cw : H2.dirty w = false) (cb : H2.dirty b = false) (cx' : H2.dirty x = false)
+    (gw : H2.grad w = none) (gb : H2.grad b = none) (gnew : ∀ i, i ≤ 7 → H2.grad (k + i) = none)
+    (hroot1 : root ≠ w) (hroot2 : root ≠ b) (hroot3 : ∀ i, i ≤ 7 → root ≠ k + i)
+    (hsole : ∀ v, (v < k ∨ k + 8 < v) → ∀ e ∈ (H2.ctx v).edges,
+      e.target ≠ w ∧ e.target ≠ b ∧ ¬ (k ≤ e.target ∧ e.target ≤ k + 7))
+    (G : Tensor ℝ) (Gf : Nat → Nat → ℝ) (hG : Is2 G N O Gf)
+    (hy : k + 8 ∈ backwardOrder H2 root) (f8 : (backprop .sum H2 root).heap.grad (k + 8) = some G) :
+    ∃ dW dB, (backprop .sum H2 root).heap.grad w = some dW ∧ (backprop .sum H2 root).heap.grad b = some dB ∧
+      dW.WF ∧ dW.dims = [O] ∧ dB.WF ∧ dB.dims = [O] ∧
+      (∀ o, o < O → dW.el [o] = ∑ n ∈ Finset.range N, Gf n o * ∑ d ∈ Finset.range D, Xf n d) ∧
+      (∀ o, o < O → dB.el [o] = ∑ n ∈ Finset.range N, Gf n o) := by
+  obtain ⟨gW, gB, pw1, pw2, pb1, pb2⟩ := fc_paths_in_walk .sum H2 root w b x k N D O hdag htr hok g hwk hbk hxk hwb tw tb
+    cw cb cx' gw gb gnew hroot1 hroot2 hroot3 hsole G hy f8
+  obtain ⟨dW, qw1, qw2, qw3⟩ := fc_grad_weight g hG
+  obtain ⟨dB, qb1, qb2, qb3⟩ := fc_grad_bias g hG
+  rw [qw1] at pw1; rw [qb1] at pb1
+  injection pw1 with pw1; injection pb1 with pb1
+  subst pw1 pb1
+  refine ⟨dW, dB, pw2, pb2, qw3.wf, qw3.dims, qb3.wf, qb3.dims, ?_, ?_⟩
+  · intro o ho
+    rw [qw3.el o ho, C16x.sumOver_real]
+    apply Finset.sum_congr rfl
+    intro n hn
+    rw [C16x.sumOver_real]
+    simp only [mul_eq]
+    rw [Finset.mul_sum]
+  · intro o ho
+    rw [qb3.el o ho, C16x.sumOver_real]
+
 /-- either mode: after `Forward` and a successful `BackPropagate` of the result, `W` and `B` hold what the rules of their
     back-edge paths make of the all-ones seed, and the graph is the one `FCGraph` describes -/
 theorem fc_backprop_paths (bm : BMode) (H : Heap ℝ) (w b x N D O : Nat) (hR : Reach bm H)
